@@ -797,6 +797,18 @@ Section Restrict.
     Lemma named_refs_agree l : (forall y, In y l -> agree y) -> map (named_ref S') l = map (named_ref S) l.
     Proof. intro H. apply map_ext_in. intros y Hy. unfold named_ref. apply type_ref_top_agree. simpl. auto. Qed.
 
+    Lemma filter_ext_in_local {A} (p q : A -> bool) l : (forall x, In x l -> p x = q x) -> filter p l = filter q l.
+    Proof. induction l as [|x r IH]; simpl; intro H; auto. rewrite H by auto. rewrite IH by auto. reflexivity. Qed.
+
+    Lemma enabled_refs_agree l : (forall y, In y l -> agree y) ->
+      map (named_ref S') (filter (type_enabled S' F) l) = map (named_ref S) (filter (type_enabled S F) l).
+    Proof.
+      intro H.
+      rewrite (filter_ext_in_local (type_enabled S' F) (type_enabled S F) l).
+      - apply named_refs_agree. intros y Hy. apply H. apply filter_In in Hy. tauto.
+      - intros y Hy. unfold type_enabled. rewrite (H y Hy). reflexivity.
+    Qed.
+
     Lemma implementations_agree i : implementations S' reg i = implementations S reg i.
     Proof.
       unfold implementations. apply flat_map_ext_in_local. intros o Ho. rewrite restrict_lookup_in by exact Ho. reflexivity.
@@ -810,13 +822,13 @@ Section Restrict.
       unfold intro_type. f_equal.
       - destruct t; auto; simpl in Hs; f_equal; apply fields_agree; intros y Hy; apply Hs; auto. apply in_app_iff; auto.
       - destruct t; auto. f_equal. apply inputs_agree. intros a Ha. apply Hs. simpl. apply in_map_iff. eauto.
-      - destruct t; auto. f_equal. apply named_refs_agree. intros y Hy. apply Hs. simpl. apply in_app_iff. auto.
+      - destruct t; auto. f_equal. apply enabled_refs_agree. intros y Hy. apply Hs. simpl. apply in_app_iff. auto.
       - destruct t; auto.
-        + f_equal. rewrite implementations_agree. apply named_refs_agree. intros y Hy.
+        + f_equal. rewrite implementations_agree. apply enabled_refs_agree. intros y Hy.
           apply restrict_lookup_in. unfold implementations in Hy. apply in_flat_map in Hy. destruct Hy as [o [Ho Hy]].
           destruct (lookup o (types S)) as [[| | |fs' ifs' r' d'| |]|]; try contradiction.
           apply in_flat_map in Hy. destruct Hy as [j [_ Hy]]. destruct (bytes_eqb j n); [destruct Hy as [<-|[]]; exact Ho|contradiction].
-        + f_equal. apply named_refs_agree. intros y Hy. apply Hs. exact Hy.
+        + f_equal. apply enabled_refs_agree. intros y Hy. apply Hs. exact Hy.
     Qed.
 
     Theorem introspect_restrict : introspect pr S' F = introspect pr S F.
